@@ -64,3 +64,15 @@ claimed["C08"] = dict(
     text="For every reachable state and every position/mode: a valid reset moved exactly the current branch to the commit reflog displayed at that position, HEAD and other branches unchanged; --soft changed neither index nor files; --mixed/default made the index equal the target snapshot and changed no file; --hard additionally made every snapshot file exist with the committed bytes (missing directories recreated) and left never-tracked files untouched; malformed, out-of-range, two-mode and no-commit positions were refused with the disk state unchanged.",
     note="Trusted: gitfmt, reflog output parser. Files tracked before but absent from the target snapshot are left open under --hard (the statement does not say).",
 )
+claimed["C14"] = dict(
+    category="model_checking",
+    technique="exhaustive enumeration of chains 1..L x 5 repository variants (clean, staged change, worktree change, other branch advanced, twin branch at the tip) x 10 values of -n, and of all forks (reset to every earlier position + 1-2 new commits); each log output compared with an independent first-parent walk",
+    text="For every enumerated history, variant and k, the 'commit <id>' lines of log [-n k] are exactly the first min(k, length) commits of the parent chain from HEAD's branch (default 5), each once, newest first, each with its own author and message; the listing is the same in all variants.",
+    note="Trusted: gitfmt commit decoder, log output parser. Histories are linear plus resets (Goit creates no merge commits).",
+)
+claimed["C20"] = dict(
+    category="model_checking",
+    technique="explicit-state BFS over local/global config writes (sections user/core, several keys, values with '=') plus an exhaustive value sweep (14 values incl. '=', '[x]', ']', '#', quotes, backslash, '%s', non-ASCII; both scopes) and all 16 (local?, global?) x (name, e-mail) combinations; every state probed with a staged file + commit",
+    text="Every config write changed exactly one (scope, section, key) of the independently parsed files and nothing else on disk; the next commit carried exactly the effective name and e-mail (local over global) unchanged; commit was refused with the disk state unchanged whenever name or e-mail was missing; malformed names (no dot, two dots, empty section or key, wrong argument count) were refused without change.",
+    note="Trusted: gitfmt config parser (value = everything after the first ' = '). E-mail values are restricted to addresses Goit's commit reader accepts (C12 owns that domain).",
+)
